@@ -21,6 +21,7 @@ pub struct Fz<'a> {
 }
 impl<'a> Fz<'a> {
     fn begin(&mut self, api: &str, arg: &str) {
+        crate::api::watchdog::arm();
         let _ = std::fs::write(&self.inflight, obj(&[("api", qs(api)), ("arg", qs(arg))]));
     }
     fn end(&mut self, api: &str, fmt: &str, arg: &str, st: &str) {
